@@ -22,7 +22,7 @@ from ..ctx import PyRaise
 from ..objects import Instance
 from ..specs import operators as S
 from ..values import Opaque, Unsupported, fresh_name, to_z3
-from .common import CellGeom, FlatIndex, SymGrid
+from .common import CellGeom, FlatIndex, SymGrid, explore_paths, prem_of
 
 PROPERTY = "C18"
 
@@ -388,7 +388,61 @@ def poisson_wrapper_unit(U):
     U.prove("solve_poisson_equation.both_outcomes_explored", [], z3.BoolVal(ok_paths >= 1 and fail_paths >= 1))
 
 
+def axis_sparse_data_unit(axis, periodic):
+    """the real BoundaryAxisBase.get_sparse_matrix_data (the per-axis dispatch the matrix builders call): a virtual point
+    below / above the axis gets exactly what the lower / upper condition answers (so the sign of anti-periodic conditions
+    and every other coefficient of the side conditions reach the matrix), an interior point is itself with weight 1"""
+    def unit(U):
+        def body(it):
+            cls = it.module_attr(it.load_module("pde.grids.boundaries.axis"), "BoundaryAxisBase")
+            N = [z3.Int("N0"), z3.Int("N1")]
+            for n_ in N:
+                it.ctx.assume(n_ >= 1)
+            flags = [z3.Bool("periodic_other_axis"), z3.Bool("periodic_other_axis")]
+            flags[axis] = periodic
+            grid = Instance(None, {"shape": tuple(N), "periodic": flags, "num_axes": 2}, name="grid")
+            answers = {}
+
+            def side(name):
+                def get(idx):
+                    answers[name] = (Instance(None, {}, name=f"constant of the {name} condition"), Instance(None, {}, name=f"entries of the {name} condition"))
+                    return answers[name]
+                return Instance(None, {"get_sparse_matrix_data": get, "grid": grid, "axis": axis, "upper": name == "upper"}, name=f"{name} condition")
+
+            ax = Instance(cls, {"low": side("lower"), "high": side("upper"), "grid": grid, "axis": axis})
+            c, other = z3.Int("coordinate_along_the_axis"), z3.Int("coordinate_along_the_other_axis")
+            it.ctx.assume(z3.And(c >= -1, c <= N[axis]))
+            idx = (c, other) if axis == 0 else (other, c)
+            r = it.call(it.getattr(ax, "get_sparse_matrix_data"), [idx], {})
+            return r, answers, c, N
+
+        n = 0
+        for p, res in enumerate(explore_paths(U, body)):
+            P = prem_of(res.ctx)
+            nm = f"path{p}"
+            if res.outcome != "return":
+                U.prove(f"{nm}.returns_normally", P, z3.BoolVal(False), info={"exc": str(res.exc)})
+                continue
+            n += 1
+            r, answers, c, N = res.value
+            is_pair = isinstance(r, tuple) and len(r) == 2
+            low_ans = is_pair and "lower" in answers and r[0] is answers["lower"][0] and r[1] is answers["lower"][1]
+            up_ans = is_pair and "upper" in answers and r[0] is answers["upper"][0] and r[1] is answers["upper"][1]
+            interior = is_pair and isinstance(r[1], dict) and len(r[1]) == 1 and not isinstance(r[0], Instance)
+            U.prove(f"{nm}.point_below_the_axis_gets_the_answer_of_the_lower_condition", P + [c == -1], z3.BoolVal(bool(low_ans)))
+            U.prove(f"{nm}.point_above_the_axis_gets_the_answer_of_the_upper_condition", P + [c == N[axis]], z3.BoolVal(bool(up_ans)))
+            if interior:
+                (k, v), = r[1].items()
+                U.prove(f"{nm}.interior_point_is_itself_with_weight_1", P + [c >= 0, c < N[axis]], z3.And(to_z3(k) == c, to_z3(v) == 1, to_z3(r[0]) == 0))
+            else:
+                U.prove(f"{nm}.interior_point_is_itself_with_weight_1", P + [c >= 0, c < N[axis]], z3.BoolVal(False))
+        U.prove("has_three_paths", [], z3.BoolVal(n >= 3))
+
+    return unit
+
+
 UNITS = _units() + [("wrapper.solve_poisson_equation", poisson_wrapper_unit)]
+UNITS += [(f"BoundaryAxisBase.get_sparse_matrix_data[axis={a},periodic={p}]", axis_sparse_data_unit(a, p)) for a in (0, 1) for p in (False, True)]
 # 3-d Cartesian assembly takes minutes per configuration: thorough tier only (quick tier: bounded native check)
 THOROUGH_ONLY = {n for n, _ in UNITS if n.startswith("cartesian3.")}
 
